@@ -51,7 +51,9 @@ pub fn clear() {
     LAST.with(|l| *l.borrow_mut() = (String::new(), String::new()));
 }
 
-/// true when the recorded panic location is inside the library under test
+/// true when the recorded panic location is outside the harness itself: in the library under test
+/// (/repo/...) or in a dependency it drives (registry / rustc paths). Harness sources are compiled
+/// with paths relative to the harness crate (`src/...`).
 pub fn in_library(loc: &str) -> bool {
-    loc.starts_with("/repo/")
+    !loc.starts_with("src/") && !loc.is_empty() && loc != "<unknown>"
 }
